@@ -422,4 +422,20 @@ def str_method(interp, recv, name, args, kwargs, fr):
                 anyc = z3.Star(_chars_re(range(128)))
                 run.assume(z3.InRe(r, z3.Union(z3.Re(""), nows, z3.Concat(nows, anyc, nows))))
         return r
+    if name in ("rstrip", "lstrip") and not args and not kwargs:
+        # str.rstrip() / lstrip() without an argument: uninterpreted, idempotent, never longer than the subject, a prefix / suffix of it, and the
+        # identity on a string whose last / first character is not a blank (ASCII blanks as measured)
+        f = z3.Function("py_str_" + name, z3.StringSort(), z3.StringSort())
+        interp.trusted.add(f"engine: str.{name}() is an uninterpreted function String->String: idempotent, a {'prefix' if name == 'rstrip' else 'suffix'} of its subject, "
+                           "the identity when the subject's edge character is not a blank")
+        sv = zstr(recv)
+        r = f(sv)
+        run = interp.run
+        run.assume(f(r) == r)
+        run.assume(z3.PrefixOf(r, sv) if name == "rstrip" else z3.SuffixOf(r, sv))
+        nows = _chars_re(set(range(128)) - set(_SPACE))
+        anyc = z3.Star(_chars_re(range(128)))
+        edge_ok = z3.InRe(sv, z3.Concat(anyc, nows)) if name == "rstrip" else z3.InRe(sv, z3.Concat(nows, anyc))
+        run.assume(z3.Implies(z3.Or(edge_ok, z3.Length(sv) == 0), r == sv))
+        return r
     raise Unsupported(f"str.{name}")
